@@ -202,6 +202,20 @@ pub fn run(ctx: &mut Ctx) {
     let mut rng = ctx.rng(0xC17);
     let g = Gen { names: &names, max_depth: 4, max_arity: 4, placeholders: true, set_bias: false };
     let mut idx = 0usize;
+    // many threads at once (two per core) in the mutators, on cases that hold alone
+    if ctx.shard < 4 {
+        let mut crng = ctx.rng(0x7C17);
+        let mut cases: Vec<(TD, String, Vec<TD>)> = vec![];
+        for i in 0..120usize {
+            let t = g.term(&mut crng, 1 + i % 3, false);
+            let n = strings[(i * 13) % strings.len()].clone();
+            let cs: Vec<TD> = (0..i % 4).map(|_| g.term(&mut crng, 1, false)).collect();
+            cases.push((t, n, cs));
+        }
+        let rounds = if ctx.thorough { 60 } else { 6 };
+        concurrent_family(ctx, "C17", "set_atom_name / push_components", cases, rounds, |c| name_failure(&c.0, &c.1).or_else(|| push_failure(&c.0, &c.2)));
+    }
+
     // (0) fixed-arity terms whose components are (still) bare placeholders, and lists of exactly their
     // arity: appending must fail and change nothing, whatever the components are
     {
